@@ -1,5 +1,10 @@
-(* Model/TreeDiff.v — dulwich/diff_tree.py: _merge_entries (one directory level
-   of walk_trees) and the classification of an entry pair in tree_changes.
+(* Model/TreeDiff.v — dulwich/diff_tree.py: _merge_entries, walk_trees and
+   tree_changes (no rename detector, no path filter); dulwich/object_store.py:
+   iter_tree_contents and Tree.lookup_path.
+   A store maps a tree id to the tree's entries in name order (what
+   Tree.iteritems(name_order=True) yields); both trees of a diff are read from
+   the same store, so equal ids denote equal trees.  Paths are lists of path
+   components; the implementation joins them with '/'.
    Definitions only. *)
 From DV Require Export Bytes RustTwins.
 
@@ -8,8 +13,13 @@ Record tent := { t_name : bytes; t_mode : Z; t_id : bytes }.
 Definition tent_eqb (a b : tent) : bool :=
   bytes_beq (t_name a) (t_name b) && (t_mode a =? t_mode b) && bytes_beq (t_id a) (t_id b).
 
-(* _merge_entries over two lists in name order; fuel = total length *)
-Fixpoint merge_entries (fuel : nat) (l1 l2 : list tent) : list (option tent * option tent) :=
+Definition store := bytes -> list tent.
+Definition path := list bytes.
+Definition leaf := (Z * bytes)%type.            (* mode, id of a non-directory entry *)
+Definition pair := (option tent * option tent)%type.
+
+(* ---------- one directory level: _merge_entries ---------- *)
+Fixpoint merge_entries (fuel : nat) (l1 l2 : list tent) : list pair :=
   match fuel with
   | O => []
   | S f =>
@@ -25,21 +35,65 @@ Fixpoint merge_entries (fuel : nat) (l1 l2 : list tent) : list (option tent * op
       end
     end
   end.
-Definition merge (l1 l2 : list tent) := merge_entries (length l1 + length l2) l1 l2.
+Definition merge (l1 l2 : list tent) : list pair := merge_entries (length l1 + length l2) l1 l2.
 
-(* tree_changes on one pair (trees already skipped: include_trees = False) *)
+Definition pair_name (p : pair) : bytes :=
+  match p with (Some a, _) => t_name a | (None, Some b) => t_name b | (None, None) => [] end.
+
+(* ---------- reading a tree ---------- *)
+Definition find (n : bytes) (l : list tent) : option tent :=
+  List.find (fun e => bytes_beq (t_name e) n) l.
+
+(* the entries below an entry: a directory's tree, nothing otherwise *)
+Definition sub (st : store) (e : option tent) : list tent :=
+  match e with Some x => if is_dir (t_mode x) then st (t_id x) else [] | None => [] end.
+Definition as_leaf (e : option tent) : option leaf :=
+  match e with Some x => if is_dir (t_mode x) then None else Some (t_mode x, t_id x) | None => None end.
+
+(* the file (mode, id) found at a path below an entry: Tree.lookup_path restricted to non-directories *)
+Fixpoint look (st : store) (e : option tent) (q : path) : option leaf :=
+  match q with
+  | [] => as_leaf e
+  | n :: r => look st (find n (sub st e)) r
+  end.
+
+Definition root (id : bytes) : option tent := Some {| t_name := []; t_mode := 16384; t_id := id |}.
+
+(* iter_tree_contents: every file below an entry, with its path *)
+Fixpoint flatten (fuel : nat) (st : store) (e : tent) : list (path * leaf) :=
+  if is_dir (t_mode e) then
+    match fuel with
+    | O => []
+    | S f => flat_map (fun c => map (fun x => (t_name c :: fst x, snd x)) (flatten f st c)) (st (t_id e))
+    end
+  else [([], (t_mode e, t_id e))].
+
+(* ---------- walk_trees ---------- *)
+Definition is_tree (e : option tent) : bool := match e with Some x => is_dir (t_mode x) | None => false end.
+Definition oeqb (e1 e2 : option tent) : bool :=
+  match e1, e2 with Some a, Some b => tent_eqb a b | None, None => true | _, _ => false end.
+
+(* pre-order; paths relative to the pair walked *)
+Fixpoint walk (fuel : nat) (st : store) (prune : bool) (pr : pair) : list (path * pair) :=
+  if prune && is_tree (fst pr) && is_tree (snd pr) && oeqb (fst pr) (snd pr) then []
+  else ([], pr) ::
+       match fuel with
+       | O => []
+       | S f => flat_map (fun c => map (fun x => (pair_name c :: fst x, snd x)) (walk f st prune c))
+                         (merge (sub st (fst pr)) (sub st (snd pr)))
+       end.
+
+(* ---------- tree_changes ---------- *)
 Inductive change := CAdd (e : tent) | CDelete (e : tent) | CModify (a b : tent) | CUnchanged (a b : tent).
 
 Definition ifmt (m : Z) : Z := (m / 4096) mod 16.
-Definition skip_tree (e : option tent) : option tent :=
-  match e with Some x => if is_dir (t_mode x) then None else Some x | None => None end.
+Definition skip_tree (include_trees : bool) (e : option tent) : option tent :=
+  match e with Some x => if negb include_trees && is_dir (t_mode x) then None else Some x | None => None end.
 
-Definition classify (want_unchanged change_type_same : bool) (p : option tent * option tent) : list change :=
-  let '(e1, e2) := p in
-  let same := match e1, e2 with Some a, Some b => tent_eqb a b | None, None => true | _, _ => false end in
-  if same && negb want_unchanged then []
+Definition classify (want_unchanged include_trees change_type_same : bool) (p : pair) : list change :=
+  if oeqb (fst p) (snd p) && negb want_unchanged then []
   else
-    match skip_tree e1, skip_tree e2 with
+    match skip_tree include_trees (fst p), skip_tree include_trees (snd p) with
     | Some a, Some b =>
       if negb (ifmt (t_mode a) =? ifmt (t_mode b)) && negb change_type_same then [CDelete a; CAdd b]
       else if tent_eqb a b then [CUnchanged a b] else [CModify a b]
@@ -47,3 +101,55 @@ Definition classify (want_unchanged change_type_same : bool) (p : option tent * 
     | None, Some b => [CAdd b]
     | None, None => []
     end.
+
+Definition tree_changes (fuel : nat) (st : store) (want_unchanged include_trees change_type_same : bool)
+           (t1 t2 : option bytes) : list (path * change) :=
+  let r := fun t => match t with Some id => root id | None => None end in
+  flat_map (fun x => map (fun c => (fst x, c)) (classify want_unchanged include_trees change_type_same (snd x)))
+           (walk fuel st (negb want_unchanged) (r t1, r t2)).
+
+(* the change list as a patch on flat listings: (path, old file, new file);
+   a type change reported as delete + add is one patch item *)
+Definition own_delta (p : pair) : list (path * option leaf * option leaf) :=
+  if oeqb (fst p) (snd p) then []
+  else match as_leaf (fst p), as_leaf (snd p) with
+       | None, None => []
+       | o, n => [([], o, n)]
+       end.
+Definition tree_delta (fuel : nat) (st : store) (pr : pair) : list (path * option leaf * option leaf) :=
+  flat_map (fun x => map (fun d => (fst x ++ fst (fst d), snd (fst d), snd d)) (own_delta (snd x))) (walk fuel st true pr).
+
+Fixpoint path_beq (a b : path) : bool :=
+  match a, b with
+  | [], [] => true
+  | x :: a', y :: b' => bytes_beq x y && path_beq a' b'
+  | _, _ => false
+  end.
+Definition find_delta (q : path) (d : list (path * option leaf * option leaf)) : option (option leaf * option leaf) :=
+  match List.find (fun x => path_beq (fst (fst x)) q) d with
+  | Some x => Some (snd (fst x), snd x)
+  | None => None
+  end.
+(* the first tree's listing with the patch applied *)
+Definition patched (fuel : nat) (st : store) (pr : pair) (q : path) : option leaf :=
+  match find_delta q (tree_delta fuel st pr) with
+  | Some (_, n) => n
+  | None => look st (fst pr) q
+  end.
+
+(* ---------- well-formedness, decidable: entries strictly increasing by name, depth within fuel ---------- *)
+Fixpoint sortedb (l : list tent) : bool :=
+  match l with
+  | a :: ((b :: _) as r) => (match bytes_cmp (t_name a) (t_name b) with OLt => true | _ => false end) && sortedb r
+  | _ => true
+  end.
+Fixpoint wfb (fuel : nat) (st : store) (e : option tent) : bool :=
+  sortedb (sub st e) &&
+  match fuel with
+  | O => match sub st e with [] => true | _ => false end
+  | S f => forallb (fun c => wfb f st (Some c)) (sub st e)
+  end.
+
+(* a finite store *)
+Definition st_of (tbl : list (bytes * list tent)) : store :=
+  fun id => match List.find (fun kv => bytes_beq (fst kv) id) tbl with Some kv => snd kv | None => [] end.
